@@ -51,7 +51,7 @@ def io_workload(rng, prop):
         wl = gen.gen_workload(rng, weights=[15, 45, 25, 5, 2, 4, 4])
     n = len(wl['seqs'])
     if rng.random() < 0.3:
-        maxlen = rng.choice([1, 2, 30, 100, 200])
+        maxlen = rng.choice([1, 2, 30, 100, 200]) if prop == 'C06' else rng.choice([1, 2, 30, 100, 200, 255, 256, 257, 262, 300, 340, 1000])
         if maxlen < 3:
             # very short names must still be distinct
             pool = list(gen.NAME_SAFE[:62])
@@ -225,7 +225,8 @@ def judge(spec, results):
                 rows, _, _ = oracles.parse_output(f, data)
                 if [x[1] for x in rows] != [x[1] for x in truth]:
                     add('C15_ROWS', 'rows in the %s file differ from the alignment held in memory' % f)
-                elif [x[0] for x in rows] != [x[0] for x in truth]:
+                elif [x[0] for x in rows] != [(x[0] if f == 'fasta' else x[0][:256]) for x in truth]:
+                    # msf/clu labels are limited to the 256-character name buffer by design
                     add('C15_NAMES', 'names in the %s file differ from the names held in memory' % f)
         return V
     # ---- C06
